@@ -30,6 +30,7 @@ type Oblig struct {
 	timeS   float64
 	output  string
 	model   map[string]string
+	expectFail bool // vacuity probe: must NOT be provable
 }
 
 type engineErr struct{ msg string }
@@ -80,11 +81,19 @@ func (u *Unit) assume(guard, fact *Term) {
 	if fact.bound || guard.bound {
 		return // facts about quantified variables cannot be asserted at top level
 	}
-	u.assumptions = append(u.assumptions, u.m.tb.Implies(guard, fact))
+	a := u.m.tb.Implies(guard, fact)
+	if u.assumed[a.id] {
+		return
+	}
+	u.assumed[a.id] = true
+	u.assumptions = append(u.assumptions, a)
 }
 
 func (u *Unit) oblige(class, label string, st *State, goal *Term, pos token.Pos, text string) {
-	if u.quiet || isTrue(goal) || isFalse(st.guard) {
+	if u.quiet || isFalse(st.guard) {
+		return
+	}
+	if isTrue(goal) && label == "" {
 		return
 	}
 	u.counter[class]++
@@ -100,9 +109,25 @@ func (u *Unit) oblige(class, label string, st *State, goal *Term, pos token.Pos,
 	if pos.IsValid() {
 		o.pos = u.eng.fset.Position(pos)
 	}
+	if isTrue(goal) {
+		o.result, o.solver = "proved", "syntactic"
+	}
 	u.obligs = append(u.obligs, o)
-	// after the obligation, the fact may be assumed on this path
-	u.assume(st.guard, goal)
+	// after the obligation, the fact may be assumed on this path (postconditions
+	// and frame conditions stay independent so that each failure is reported)
+	if class != "post" && class != "frame" {
+		u.assume(st.guard, goal)
+	}
+}
+
+// probe adds a vacuity probe: `false` must not be provable at this point.
+func (u *Unit) probe(label string, st *State) {
+	if u.quiet || isFalse(st.guard) {
+		return
+	}
+	o := &Oblig{name: fmt.Sprintf("%s/vacuity/%s", u.name, label), class: "vacuity", label: label, guard: st.guard, goal: u.m.tb.False(),
+		nassume: len(u.assumptions), text: "reachability probe (must not be provable)", expectFail: true}
+	u.obligs = append(u.obligs, o)
 }
 
 // ------------------------------------------------------------ CFG analysis
@@ -1115,6 +1140,10 @@ func (u *Unit) globalValue(g *ssa.Global) Val {
 	et := g.Type().Underlying().(*types.Pointer).Elem()
 	name := "G_" + sanitize(g.Pkg.Pkg.Name()+"."+g.Name())
 	u.globalsUsed[g] = true
+	if u.eng.storedOutsideInit[g] {
+		u.noteHavoc("mutable global " + g.Name())
+		return u.freshOfType("glob_"+g.Name(), et, m.tb.True())
+	}
 	c := m.tb.Const(name, m.sortOf(et))
 	if tab, ok := u.eng.tables[g]; ok && !u.tableDone[g] {
 		u.tableDone[g] = true
@@ -1127,6 +1156,10 @@ func (u *Unit) globalValue(g *ssa.Global) Val {
 		// error sentinels: non-nil, pairwise distinct
 		u.tableDone[g] = true
 		m.addAxiom(m.tb.Not(m.tb.Eq(c, m.NilIface())))
+		if k, ok := u.eng.globalInit[g]; ok {
+			m.addAxiom(m.tb.Eq(m.IfaceTag(c), m.TypeTagByName(k)))
+			m.addAxiom(m.tb.Lt(m.tb.Int(0), m.IfaceVal(c)))
+		}
 		for o := range u.sentinels {
 			if o != g {
 				oc := m.tb.Const("G_"+sanitize(o.Pkg.Pkg.Name()+"."+o.Name()), SIface)
